@@ -1024,7 +1024,12 @@ func (tr *FnCtx) callMods(c *ssa.CallCommon) ([]Comp, bool) {
 	f, _ := tr.calleeOf(c)
 	if f == nil {
 		if _, isParam := c.Value.(*ssa.Parameter); isParam {
-			return nil, false // callbacks: assumed not to modify modelled state (listed assumption)
+			// callbacks: assumed not to modify modelled state (listed assumption), except variables whose address they get
+			var cs []Comp
+			for _, a := range c.Args {
+				cs = append(cs, tr.callbackPointeeComps(a)...)
+			}
+			return cs, false
 		}
 		if fieldFuncName(c.Value) != "" {
 			return nil, false
@@ -1151,8 +1156,15 @@ func (tr *FnCtx) call(st *State, c *ssa.CallCommon, instr ssa.Instruction, mode 
 	f, bindings := tr.calleeOf(c)
 	if f == nil {
 		if _, isParam := c.Value.(*ssa.Parameter); isParam {
-			tr.note("call of function-typed parameter " + c.Value.Name() + ": assumed not to modify modelled state")
+			tr.note("call of function-typed parameter " + c.Value.Name() + ": assumed not to modify modelled state (except variables whose address it is given)")
 			tr.callbackCalls = append(tr.callbackCalls, c.Value.Name())
+			// a callback that is handed the address of a variable may write it (yaml's unmarshal(&name))
+			for _, a := range c.Args {
+				for _, cc := range tr.callbackPointeeComps(a) {
+					addr := tr.val(stripIface(a)).one()
+					tr.set(st, cc, store(tr.cur(st, cc), addr, tr.freshConst("cbw", elemSort(cc.Sort))))
+				}
+			}
 			return fresh("cb")
 		}
 		if fname := fieldFuncName(c.Value); fname != "" {
@@ -1384,6 +1396,28 @@ func (tr *FnCtx) applyContract(st *State, f *ssa.Function, spec *FuncSpec, metho
 		}
 	}
 	return res
+}
+
+func stripIface(v ssa.Value) ssa.Value {
+	if mi, ok := v.(*ssa.MakeInterface); ok {
+		return mi.X
+	}
+	return v
+}
+
+// callbackPointeeComps: memory components of the variable whose address is passed to a callback (only address-taken
+// local variables of basic type: &name)
+func (tr *FnCtx) callbackPointeeComps(a ssa.Value) []Comp {
+	x := stripIface(a)
+	al, ok := x.(*ssa.Alloc)
+	if !ok {
+		return nil
+	}
+	et := al.Type().(*types.Pointer).Elem()
+	if _, basic := et.Underlying().(*types.Basic); !basic {
+		return nil
+	}
+	return tr.W.cellComps(et)
 }
 
 func modeWord(m string) string {
